@@ -115,6 +115,13 @@ def ensure_facts(root=REPO, crate="libhaystack", verbose=True):
             if rc != 0 or not os.path.exists(tab):
                 print("EXTRACTION-FAILED: syntab rc=%s: %s" % (rc, open(os.path.join(d, "syntab.log")).read()[-2000:]))
                 sys.exit(2)
+        # the zone table chrono-tz's build script generated for this very build: kept with the facts, so that later readers do not
+        # depend on the shared target directory (another extraction may be rebuilding it)
+        import glob as _glob
+
+        tzs = sorted(_glob.glob(os.path.join(target, "debug", "build", "chrono-tz-*", "out", "timezones.rs")), key=os.path.getmtime)
+        if tzs:
+            shutil.copyfile(tzs[-1], os.path.join(d, "timezones.rs"))
         dt = time.time() - t0
         with open(done, "w") as fh:
             json.dump({"hash": h, "extract_s": dt}, fh)
@@ -123,8 +130,10 @@ def ensure_facts(root=REPO, crate="libhaystack", verbose=True):
             (x for x in os.listdir(CACHE) if x.startswith(crate + "-")),
             key=lambda x: os.path.getmtime(os.path.join(CACHE, x)),
         )
-        for old in ds[:-3]:
-            shutil.rmtree(os.path.join(CACHE, old), ignore_errors=True)
+        for old in ds[:-8]:
+            # several checkers may be running on different trees at once (self-tests): never remove facts that are still fresh
+            if time.time() - os.path.getmtime(os.path.join(CACHE, old)) > 1800:
+                shutil.rmtree(os.path.join(CACHE, old), ignore_errors=True)
         if verbose:
             print("extracted facts for %s (%s) in %.1fs" % (crate, h, dt), file=sys.stderr)
         return d, h, dt
